@@ -34,9 +34,9 @@ ASSUMPTIONS = ['docking warnings (RuntimeWarning text) are not part of the model
                'preconditions (preb); for compound operations (unit.insert, disconnect(join_ends), take_place_of, replace_with, '
                'reconnect) the precondition is that every item/slice assignment they perform meets the assignment precondition when it is performed',
                'the model of pop is the source with the pop fix applied (step); step_found is the source as found',
-               'the reverse direction of the sink/source clause for PLACEHOLDERS (reachable placeholder points at u => listed at u) is stated '
-               '(C18_placeholder_backpointer_statement) and checked by the oracle and by the per-step comparison of every listed object\'s '
-               'sink and source, but proved only locally (C18_replaced_object_is_undocked, C18_popped_object_is_undocked, C18_cleared_objects_are_undocked)']
+               'the reverse direction of the sink/source clause for PLACEHOLDERS (a placeholder reachable through a port list points at u => '
+               'it is listed at u) is proved for every operation and history (coq/C18/ProofsDeep.v, C18_placeholder_backpointer*) for '
+               'starting worlds in which placeholders not yet created point nowhere (every reachable world); it is also evaluated by the oracle']
 TRUSTED = ['model coq/C18/Model.v is hand-written from thermosteam/network.py (StreamSequence, AbstractInlets/Outlets, '
            'AbstractStream/AbstractMissingStream disconnect, pipes, Connection.reconnect, AbstractUnit rewiring methods); tie = '
            'correspondence check after every operation of every history',
